@@ -543,6 +543,8 @@ def trace_mismatches(rej):
             for f, act in OBS_FACETS.items():
                 if qe[f] != qg[f]:
                     out.append(dict(base, kind="ret", e={"a": act, "p": qg["q"], "E": ev["E"]}, expected=qe[f], got=qg[f]))
+        if exp.get("twf") is False:
+            out.append(dict(base, kind="wf", e={"a": "Obs"}, expected="well-formed trie", got=tree_wf(ev.get("t")) or "ill-formed"))
         for i, ok in enumerate(exp.get("vdok", [])):
             if not ok:
                 out.append(dict(base, kind="ret", e={"a": "ViewDesc", "p": ev["vd"][i]["q"], "E": ev["E"]},
